@@ -8,6 +8,23 @@ from .base import Check
 
 EVENT_OPS = ("B ", "K ", "U ", "T ", "X ", "N ", "D ")
 
+# Harmless rewrites of the anchored code on which the full flow of this check was run and stays silent (built as mutated object
+# files in scratch and linked into a scratch harness; the patches are kept as documentation in corpus/C10/negative_controls/).
+NEGATIVE_CONTROLS = [
+    "nc1 apilistener-authority.cpp: cold-start test extracted into a static helper, locals renamed, members walked back to front with a "
+    "positively spelled guard, start time read before the loop, std::stable_sort, other log text, comments",
+    "nc2 configobject.cpp SetAuthority: early returns instead of else-if, test still inside the lock, Pause() before SetPaused(true)",
+    "nc3 utility.cpp SDBM: hash * 65599 + c with an index loop and explicit conversions",
+    "nc4 notificationcomponent.cpp NotificationTimerHandler: guards computed up front without nesting (De Morgan), notifications visited "
+    "back to front, other log text",
+    "nc5 checkable-notification.cpp SendNotifications: branch order inverted, continue instead of nesting, extra field in the stashed "
+    "record, other log text",
+    "nc6 checkercomponent.cpp ObjectHandler: guard negated, branches swapped, erase order swapped",
+    "nc7 apilistener.cpp ApiListener::Start: authority timer every 7 s instead of 10 s, timers created in another order (the harness "
+    "takes which timer ran as an oracle input)",
+    "nc8 notification.cpp ExecuteNotificationHelper: OnNotificationSentToUser emitted before the command runs (the harness waits for both)",
+]
+
 
 class C10(Check):
     prop = "C10"
@@ -59,6 +76,12 @@ class C10(Check):
     # ------------------------------------------------------------------------------------------
     def _run(self, harness_cmd, driver, save, tolerate_harness_failure=False):
         hrc, herr, drc, lines = runner.pipeline(harness_cmd, [driver], save)
+        if hrc != 0 and not tolerate_harness_failure:
+            # the node processes run real threads (scheduler, thread pool, relay queues): a crash that does not
+            # reproduce on the same input is the harness's, not the property's -- run once more before reporting
+            core.log(f"h_c10 exited with rc={hrc}; running the same input once more")
+            self.harness_retries = getattr(self, "harness_retries", 0) + 1
+            hrc, herr, drc, lines = runner.pipeline(harness_cmd, [driver], save)
         if hrc != 0:
             if tolerate_harness_failure:
                 return None
@@ -171,7 +194,8 @@ class C10(Check):
             total[k] = total.get(k, 0) + v
         self._collect(res, lines, save, harness, driver, "gen")
         res.stats = total
-        res.extra = {"corpus_files": [os.path.basename(f) for f in corpus]}
+        res.extra = {"corpus_files": [os.path.basename(f) for f in corpus], "harness_retries": getattr(self, "harness_retries", 0),
+                     "negative_controls": NEGATIVE_CONTROLS}
         res.evaluations = total["verdict_keep"] + total["verdict_true"] + total["verdict_false"] + total["hashes"]
         res.distinct_nontrivial = total["nontrivial"]
         res.traces_validated = total["cases"]
